@@ -142,6 +142,33 @@ func (p *parser) name() *Node {
 func Parse(src []byte) (doc *Node, perr *Error) {
 	toks, lerr := Lex(src)
 	if lerr != nil {
+		if lerr.Unspecified {
+			return nil, lerr
+		}
+		// the text stops being a prefix of a document at the EARLIER of the malformed
+		// lexeme and the first token the grammar cannot continue with: parse what was
+		// lexed before the lexical error
+		prefix := append(append([]Token{}, toks...), Token{Kind: EOF, Start: lerr.Pos, End: lerr.Pos})
+		if _, perr := ParseTokens(prefix); perr != nil && !perr.AtEOF && !perr.Unspecified {
+			return nil, perr
+		}
+		return nil, lerr
+	}
+	return ParseTokens(toks)
+}
+
+// ParseEmuRuneNames parses with the C03-F2 emulation of the lexer (see LexEmuRuneNames),
+// with the same "earliest error" rule as Parse.
+func ParseEmuRuneNames(src []byte) (*Node, *Error) {
+	toks, lerr := LexEmuRuneNames(src)
+	if lerr != nil {
+		if lerr.Unspecified {
+			return nil, lerr
+		}
+		prefix := append(append([]Token{}, toks...), Token{Kind: EOF, Start: lerr.Pos, End: lerr.Pos})
+		if _, perr := ParseTokens(prefix); perr != nil && !perr.AtEOF && !perr.Unspecified {
+			return nil, perr
+		}
 		return nil, lerr
 	}
 	return ParseTokens(toks)
